@@ -139,19 +139,29 @@ package fiber
 //@ ..  ite(qstate(s, n - 1) == 2, 1, ite(s[n-1] == '\\', 2, ite(s[n-1] == '"', 0, 1)))))
 
 // forEachMediaRange calls functor for each element of the comma-separated list; a comma inside a quoted
-// string does not separate elements. (functor may rewrite the bytes it is given.)
-// cur(): the rest of the header at the start of the current element, leading spaces removed (the variable `header`
+// string does not separate elements. Optional whitespace (RFC 9110 5.6.3: SP / HTAB) around an element - after the
+// preceding comma, before the following one - is not part of the element (5.6.1: #element = OWS "," OWS).
+// cur(): the rest of the header at the start of the current element, leading whitespace removed (the variable `header`
 // after its re-assignment; the name `header` itself denotes the parameter's entry value in contracts).
-//@ macro cur() = last(@utils.TrimLeft)
-// Frame: forEachMediaRange itself writes nothing; what functor does beyond rewriting the bytes it is given is
-// accounted for at the call site (callsback: the write set and the `preserves` clauses of the closure passed).
-//@ func param functor assumed pure
-// (heap(E_uint8) = "byte arrays": the frame check cannot carry "only header's array" through the loop.)
+// elem: the element handed to functor; n: the offset of the list comma (or the end) in cur().
+//@ macro ows(c) = c == ' ' || c == '\t'
+//@ macro cur() = last(@bytes.TrimLeft)
+// Frame: forEachMediaRange itself writes nothing; what functor does is accounted for at the call site (callsback:
+// the write set and the `preserves` clauses of the closure passed).
+//@ func param functor(elem) assumed pure
 //@ func forEachMediaRange
 //@   props C09 C07
 //@   callsback
 //@   pure
-//@   atcall param functor: piece-of-header: 0 <= n && n <= len(cur())
+// (the bytes skipped in front of an element are those of the cutset handed to bytes.TrimLeft: the loop-carried rest of
+// the header cannot be named in a clause - `header` denotes the parameter - so "only optional whitespace is skipped
+// before an element" is stated over the cutset.)
+//@   atcall @bytes.TrimLeft: [C09] only-optional-whitespace-skipped-before-an-element: forallI(x, inCutset(cutset, x) ==> ows(x))
+//@   atcall param functor: [C09] no-optional-whitespace-before-the-element: len(elem) > 0 ==> !ows(elem[0])
+//@   atcall param functor: [C09] no-optional-whitespace-between-element-and-list-comma: len(elem) > 0 ==> !ows(elem[len(elem)-1])
+//@   atcall param functor: piece-of-header: 0 <= n && n <= len(cur()) && len(elem) <= n && str(elem) == str(cur())[:len(elem)] && (len(elem) > 0 ==> elem == cur()[:len(elem)])
+//@   atcall param functor: [C09] element-start-is-past-the-optional-whitespace: len(cur()) > 0 ==> !ows(cur()[0])
+//@   atcall param functor: [C09] only-optional-whitespace-dropped-before-the-list-comma: forall(k, len(elem), n, ows(cur()[:n][k]))
 //@   atcall param functor: ends-at-comma-or-end: n == len(cur()) || cur()[n] == ','
 //@   atcall param functor: no-comma-inside-unquoted: !hasDQuote ==> forall(k, 0, n, cur()[k] != ',')
 //@   atcall param functor: [C09] splits-only-outside-quotes: hasDQuote ==> (n == len(cur()) || qstate(str(cur()), n) == 0) && forall(k, 0, n, cur()[k] == ',' ==> qstate(str(cur()), k) != 0)
@@ -188,21 +198,34 @@ package fiber
 //@   ensures listed-at-its-position: len(acceptedTypes) == old(len(acceptedTypes)) + 1 ==> acceptedTypes[old(len(acceptedTypes))].order == order
 //@   atcall @fasthttp.ParseUfloat: q-value-is-what-follows-q-equals: 0 <= i && i + 3 <= len(accept) && str(accept)[i:i+3] == ";q=" && str(buf) == str(accept)[i+3:]
 //@   atcall @utils.UnsafeString: classified-before-listing: specificity == specificityOf(str(b))
+//@   atcall @utils.UnsafeString: [C09] range-text-is-what-precedes-the-parameters-less-optional-whitespace: str(b) == trimmedSet(ite(i == -1, str(accept), str(accept)[:i]), " \t")
+//@   atcall @utils.UnsafeString: [C09] range-text-without-surrounding-optional-whitespace: len(b) > 0 ==> !ows(b[0]) && !ows(b[len(b)-1])
 //@   ensures listed-text-is-trimmed-range: len(acceptedTypes) == old(len(acceptedTypes)) + 1 ==> acceptedTypes[old(len(acceptedTypes))].spec == last(@utils.UnsafeString)
 //@   ensures listed-specificity-of-text: len(acceptedTypes) == old(len(acceptedTypes)) + 1 ==> acceptedTypes[old(len(acceptedTypes))].specificity == specificityOf(last(@utils.UnsafeString))
 //@   ensures specificity-classified: len(acceptedTypes) == old(len(acceptedTypes)) + 1 ==> acceptedTypes[old(len(acceptedTypes))].specificity == specificityOf(acceptedTypes[old(len(acceptedTypes))].spec)
 //@   ensures plain-range-listed-with-q1: old(forall(k, 0, len(accept), accept[k] != ';')) ==> len(acceptedTypes) == old(len(acceptedTypes)) + 1 &&
-//@ ..   acceptedTypes[old(len(acceptedTypes))].quality == 1 && acceptedTypes[old(len(acceptedTypes))].params == nil && acceptedTypes[old(len(acceptedTypes))].spec == trimmed(old(str(accept)), ' ')
+//@ ..   acceptedTypes[old(len(acceptedTypes))].quality == 1 && acceptedTypes[old(len(acceptedTypes))].params == nil && acceptedTypes[old(len(acceptedTypes))].spec == trimmedSet(old(str(accept)), " \t")
+// The quality of a range is the value of its weight parameter (fast path: the weight is the only parameter, written
+// ";q=" directly behind the range): a weight of 0 excludes the range, any other weight is the quality it is listed with.
+// (a: the element as a byte slice; i: the offset of its first ';')
+//@ macro weightOnlyAt(a, i) = 0 <= i && i + 3 <= len(a) && a[i] == ';' && forall(k, 0, i, a[k] != ';') && str(a)[i:i+3] == ";q=" && forall(k, 0, len(a) - i - 3, a[i+3:][k] != ';') && ufloatOK(str(a)[i+3:])
+//@   atcall @fasthttp.ParseUfloat: [C09] lemma-first-semicolon: forallI(j, weightOnlyAt(accept, j) ==> j == i)
+//@   atcall @sync.(*Pool).Get: [C09] lemma-slow-path-not-for-weight-only: forallI(j, !weightOnlyAt(accept, j))
+//@   ensures [C09] weight-zero-range-not-listed: forallI(i, old(weightOnlyAt(accept, i) && ufloat(str(accept)[i+3:]) == 0) ==> len(acceptedTypes) == old(len(acceptedTypes)))
+//@   ensures [C09] weight-only-range-listed-with-its-weight: forallI(i, old(weightOnlyAt(accept, i) && ufloat(str(accept)[i+3:]) != 0) ==> len(acceptedTypes) == old(len(acceptedTypes)) + 1 &&
+//@ ..   acceptedTypes[old(len(acceptedTypes))].quality == old(ufloat(str(accept)[i+3:])))
 
-// The visitor of a range's parameters (slow path): the parameter q sets the quality (if it parses) and ends the
-// visit - what follows q is not a media-type parameter; every other parameter is recorded under its lower-cased name.
-//@ macro isQ(key) = len(key) == 1 && key[0] == 'q'
+// The visitor of a range's parameters (slow path): the weight parameter - named q or Q: parameter names are
+// case-insensitive (RFC 9110 5.6.6) - sets the quality (if it parses) and ends the visit - what follows it is not a
+// media-type parameter; every other parameter is recorded under its lower-cased name.
+//@ macro isQ(key) = len(key) == 1 && (key[0] == 'q' || key[0] == 'Q')
 //@ func getOffer$1$1
 //@   props C09 C07
 //@   requires params-map-from-the-pool: params != nil
 //@   atcall @fasthttp.ParseUfloat: q-value-is-the-value-of-q: isQ(key) && buf == value
+//@   ensures [C09] weight-parameter-in-either-case-sets-quality: old(isQ(key) && ufloatOK(str(value))) ==> quality == ufloat(old(str(value)))
 //@   ensures q-ends-the-visit: old(isQ(key)) <==> !result
-//@   ensures q-sets-quality-or-keeps-it: old(isQ(key)) ==> quality == old(quality) || quality == ufloat(old(str(value)))
+//@   ensures unparsable-weight-keeps-quality: old(isQ(key) && !ufloatOK(str(value))) ==> quality == old(quality)
 //@   ensures other-parameters-keep-quality: !old(isQ(key)) ==> quality == old(quality)
 //@   ensures other-parameters-recorded-lower-case: !old(isQ(key)) ==> indom(params, lower(old(str(key))))
 
@@ -274,9 +297,14 @@ package fiber
 //@ func ResFmt.Handler assumed
 //@   modifies heap
 
-// Format: Vary: Accept is always added; without an Accept header the first handler runs; otherwise the media
+// Format: Vary: Accept is always added; an absent Accept header selects the first offer: the first entry that is
+// not the "default" marker runs with its media type set (only when every entry is the fallback marker there is no
+// offer and the first fallback handler runs, without a content type); otherwise the media
 // types of the non-default handlers are offered to Accepts and the handler whose type was chosen runs, the
 // default handler (or 406) if nothing is acceptable. acceptHdr(): the Accept header as Format read it.
+// firstOfferAt(hs, k): hs[k] is the first offer (entry other than the "default" marker) of hs.
+//@ macro firstOfferAt(hs, k) = hs[k].MediaType != "default" && forall(m, 0, k, hs[m].MediaType == "default")
+//@ macro noOffer(hs) = forall(m, 0, len(hs), hs[m].MediaType == "default")
 // lastDefault(hs, n, k): hs[k] is the last "default" entry among hs[0:n] (the one that counts).
 //@ macro lastDefault(hs, n, k) = hs[k].MediaType == "default" && forall(m, k + 1, n, hs[m].MediaType != "default")
 //@ macro acceptHdr() = last((*DefaultCtx).Get)
@@ -290,8 +318,8 @@ package fiber
 //@ func (*DefaultCtx).Format
 //@   props C09 C07
 //@   atcall ResFmt.Handler: [C07] no-handler-media-type-adds-a-header-line: !called(@fasthttp.(*ResponseHeader).SetContentType) && !called(@fasthttp.(*ResponseHeader).SetContentTypeBytes) && !called(@fasthttp.(*ResponseHeader).SetCanonical) && !called(@fasthttp.(*ResponseHeader).SetBytesV)
-//@   atcall (*DefaultCtx).Set: [C07] content-type-is-the-media-type-of-the-handler-that-runs: c == old(c) && key == "Content-Type" && ((!called((*DefaultCtx).Accepts) && val == handlers[0].MediaType) || (called((*DefaultCtx).Accepts) && val == chosen()))
-//@   atcall ResFmt.Handler: [C07] first-or-negotiated-handler-runs-with-its-content-type-set: !called((*DefaultCtx).Accepts) || chosen() != "" ==> called((*DefaultCtx).Set)
+//@   atcall (*DefaultCtx).Set: [C07] content-type-is-the-media-type-of-the-handler-that-runs: c == old(c) && key == "Content-Type" && ((!called((*DefaultCtx).Accepts) && exists(k, 0, len(handlers), firstOfferAt(handlers, k) && val == handlers[k].MediaType)) || (called((*DefaultCtx).Accepts) && val == chosen()))
+//@   atcall ResFmt.Handler: [C07] first-offer-or-negotiated-handler-runs-with-its-content-type-set: (!called((*DefaultCtx).Accepts) && !noOffer(handlers)) || (called((*DefaultCtx).Accepts) && chosen() != "") ==> called((*DefaultCtx).Set)
 //@   ensures [C07] no-handler-media-type-adds-a-header-line: !called(@fasthttp.(*ResponseHeader).SetContentType) && !called(@fasthttp.(*ResponseHeader).SetContentTypeBytes) && !called(@fasthttp.(*ResponseHeader).SetCanonical) && !called(@fasthttp.(*ResponseHeader).SetBytesV)
 //@   ensures no-handlers-error: len(handlers) == 0 ==> result == ErrNoHandlers
 //@   ensures vary-accept-always: len(handlers) > 0 ==> called((*DefaultCtx).Vary)
@@ -300,7 +328,10 @@ package fiber
 //@   atcall (*DefaultCtx).Accepts: only-with-accept-header: acceptHdr() != ""
 //@   atcall (*DefaultCtx).Accepts: offers-are-handler-types: forall(t, 0, len(offers), offers[t] != "default" && exists(k, 0, len(handlers), handlers[k].MediaType == offers[t]))
 //@   atcall (*DefaultCtx).Accepts: every-handler-type-offered: forall(k, 0, len(handlers), handlers[same(k)].MediaType != "default" ==> exists(t, 0, len(offers), offers[t] == handlers[same(k)].MediaType))
-//@   atcall ResFmt.Handler: first-handler-without-header-else-negotiated-type-else-default: (!called((*DefaultCtx).Accepts) && acceptHdr() == "" && fnvalue == handlers[0].Handler) ||
+//@   atcall ResFmt.Handler: [C09] negotiation-skipped-only-without-accept-header: !called((*DefaultCtx).Accepts) ==> acceptHdr() == ""
+//@   atcall ResFmt.Handler: [C09] absent-header-selects-the-first-offer: !called((*DefaultCtx).Accepts) ==>
+//@ ..   exists(k, 0, len(handlers), firstOfferAt(handlers, k) && fnvalue == handlers[k].Handler) || (noOffer(handlers) && fnvalue == handlers[0].Handler)
+//@   atcall ResFmt.Handler: negotiated-type-else-default: !called((*DefaultCtx).Accepts) ||
 //@ ..   (called((*DefaultCtx).Accepts) && chosen() != "" && exists(k, 0, len(handlers), handlers[k].MediaType == chosen() && handlers[k].Handler == fnvalue && forall(m, 0, k, handlers[m].MediaType != chosen()))) ||
 //@ ..   (called((*DefaultCtx).Accepts) && chosen() == "" && exists(k, 0, len(handlers), handlers[k].MediaType == "default" && handlers[k].Handler == fnvalue))
 //@   atcall (*DefaultCtx).SendStatus: not-acceptable-without-default: status == StatusNotAcceptable && called((*DefaultCtx).Accepts) && chosen() == "" &&
@@ -308,11 +339,14 @@ package fiber
 //@   atcall @fmt.Errorf: chosen-type-always-has-a-handler: false
 //@   loop 1
 //@     invariant index-range: rangeindex + 1 <= len(handlers)
+//@     invariant no-offer-so-far: forall(m, 0, rangeindex + 1, handlers[m].MediaType == "default")
+//@   loop 2
+//@     invariant index-range: rangeindex + 1 <= len(handlers)
 //@     invariant offers-are-handler-types: forall(t, 0, len(types), types[t] != "default" && exists(k, 0, rangeindex + 1, handlers[k].MediaType == types[t]))
 //@     invariant seen-handler-types-offered: forall(k, 0, rangeindex + 1, handlers[same(k)].MediaType != "default" ==> exists(t, 0, len(types), types[t] == handlers[same(k)].MediaType))
 //@     invariant default-is-last-default-seen: forall(k, 0, rangeindex + 1, lastDefault(handlers, rangeindex + 1, k) ==> defaultHandler == handlers[k].Handler)
 //@     invariant default-is-a-default-handler: defaultHandler != nil ==> exists(k, 0, rangeindex + 1, handlers[k].MediaType == "default" && handlers[k].Handler == defaultHandler)
-//@   loop 2
+//@   loop 3
 //@     invariant index-range: rangeindex + 1 <= len(handlers)
 //@     invariant chosen-type-has-a-handler: exists(k, 0, len(handlers), handlers[k].MediaType == accept)
 //@     invariant not-found-so-far: forall(k, 0, rangeindex + 1, handlers[k].MediaType != accept)
